@@ -470,6 +470,79 @@ impl Space for Factor {
 }
 
 // ----------------------------------------------------------------------
+// space A2: pivots on both sides of the regularisation thresholds, at every elimination position
+// ----------------------------------------------------------------------
+/// every assignment of magnitudes {dominant, 1e-9 (between eps and delta), 1e-13 (below eps), 3e-7 (just above
+/// delta)} to the diagonal, every agreement pattern between the sign of the entry and the declared D sign,
+/// every elimination order and every sparsity pattern with weak (1e-5) couplings: "pivots are perturbed only
+/// when their signed value falls below the regularisation threshold" must hold at each position, first included
+pub struct Thresholds {
+    pub n: usize,
+    pub orders: Vec<Option<Vec<usize>>>,
+}
+const MAGS_T: [f64; 4] = [0.0, 1e-9, 1e-13, 3e-7]; // 0.0 stands for the dominant value n+1+i
+impl Thresholds {
+    fn decode(&self, id: u64) -> (Dense, Vec<i8>, usize) {
+        let n = self.n;
+        let np = n * (n - 1) / 2;
+        let mut d = Digits(id);
+        let ord = d.take(self.orders.len() as u64) as usize;
+        let pat = d.take(1 << np);
+        let mut a = Dense::zeros(n, n);
+        let mut ds = vec![1i8; n];
+        for i in 0..n {
+            let mag = *d.pick(&MAGS_T);
+            let agree = d.take(2) == 0;
+            let dsign: i8 = if d.take(2) == 0 { 1 } else { -1 };
+            ds[i] = dsign;
+            let m = if mag == 0.0 { (n + 1 + i) as f64 } else { mag };
+            a.set(i, i, m * dsign as f64 * if agree { 1.0 } else { -1.0 });
+        }
+        for (k, (i, j)) in pairs(n).into_iter().enumerate() {
+            if pat >> k & 1 == 1 {
+                a.set(i, j, 1e-5);
+                a.set(j, i, 1e-5);
+            }
+        }
+        (a, ds, ord)
+    }
+}
+impl Space for Thresholds {
+    fn name(&self) -> String {
+        format!("thresholds-n{}-{}orders", self.n, self.orders.len())
+    }
+    fn size(&self) -> u64 {
+        let np = self.n * (self.n - 1) / 2;
+        self.orders.len() as u64 * (1u64 << np) * 16u64.pow(self.n as u32)
+    }
+    fn describe(&self, id: u64) -> Value {
+        let (a, ds, ord) = self.decode(id);
+        json!({"A": a.rows(), "Dsigns": ds, "perm": self.orders[ord], "regularize_eps": EPS, "regularize_delta": DELTA})
+    }
+    fn bound(&self) -> Value {
+        json!({"n": self.n, "orders": self.orders.len(), "diagonal_magnitudes": ["n+1+i", 1e-9, 1e-13, 3e-7], "entry_sign_vs_Dsign": "agree | disagree", "Dsigns": "all", "patterns": "all, couplings 1e-5"})
+    }
+    fn run(&self, id: u64, ctx: &mut Ctx) -> CaseResult {
+        let (a, ds, ord) = self.decode(id);
+        let triu = a.triu().to_csc_masked(&|i, j| i == j || (i < j && a.at(i, j) != 0.0));
+        let opts = QDLDLSettings::<f64> { perm: self.orders[ord].clone(), Dsigns: Some(ds.clone()), regularize_enable: true, ..Default::default() };
+        match QDLDLFactorisation::<f64>::new(&triu, Some(opts)) {
+            Err(e) => Err(Violation::new("unexpected-error-on-valid-input", format!("{:?} for {:?}", e, a.rows()))),
+            Ok(mut f) => {
+                if let Some(p) = &self.orders[ord] {
+                    ensure!(&f.perm == p, "perm-not-honoured", "{:?} vs {:?}", f.perm, p);
+                }
+                ctx.outcome(&format!("regularised={}", f.regularize_count()));
+                judge_factor(&a, &f, &ds, true, ctx)?;
+                judge_solve(&mut f, ctx)?;
+                ctx.nontrivial += 1;
+                Ok(())
+            }
+        }
+    }
+}
+
+// ----------------------------------------------------------------------
 // space B: every vector in {0..n}^n as the permutation
 // ----------------------------------------------------------------------
 pub struct PermVectors {
@@ -984,6 +1057,16 @@ pub fn spaces(tier: &str, seed: u64) -> Vec<Box<dyn Space>> {
     }
     if thorough {
         v.push(Box::new(Factor::few_orders(6)));
+    }
+    for n in 1..=3 {
+        let mut orders: Vec<Option<Vec<usize>>> = perms(n).into_iter().map(Some).collect();
+        orders.push(None);
+        v.push(Box::new(Thresholds { n, orders }));
+    }
+    if thorough {
+        let id: Vec<usize> = (0..4).collect();
+        let rev: Vec<usize> = (0..4).rev().collect();
+        v.push(Box::new(Thresholds { n: 4, orders: vec![Some(id), Some(rev), Some(vec![2, 0, 3, 1]), None] }));
     }
     for n in 1..=(if thorough { 7 } else { 6 }) {
         v.push(Box::new(PermVectors { n }));
